@@ -2,6 +2,10 @@
 from harness.props.engine_common import *  # noqa: F401,F403
 from harness.props import docs_common as dc
 from harness.props import engine_common as ec
+from harness.drivers import bundler_cases as bc
+from harness.drivers import bundler_driver as bd
+from harness.drivers import bundler_oracles as bo
+from harness.drivers import bundler_terms as bt
 
 ID = "C05"
 PROP_FILE = "Props/C05.v"
@@ -10,11 +14,64 @@ THEOREMS = ["C05_numbering_partial", "C05_counts_exact_outside_b", "C05_interrup
 COQ_IMPORTS = dc.COQ_IMPORTS + "\nFrom BV Require Engine.DocMon2."
 RULE = dc.RULE + (" || C05: the model's trace of every case is also run through the refined monitor Engine/DocMon2.v "
                   "(checkpoint snapshot of the counters)")
-cases = dc.cases
+
+# monitor streams live in the bundler model (Engine/Bundler.v), not in the engine model: op sequences on the REAL RunBundler
+MON_ALPHABET = [("monitor", 1, 5, False), ("mon_event", 1, ((1, 9),)), ("mon_event", 1, ((1, 4),)), ("checkpoint",),
+                ("rewind",), ("create", 1, ()), ("read", 1, ((1, 11),), ()), ("save",), ("unmonitor", 1),
+                ("close_run", "success", 0)]
+
+
+def is_b(case):
+    return case.get("fam") == "bundler"
+
+
+def bundler_cases(rng, tier):
+    out = []
+    for ops in bc.enum_sequences(MON_ALPHABET[:5], 4 if tier == "quick" else 5, prefix=(("open_run",), ("monitor", 1, 5, False))):
+        out.append(bc.mk(bc.DEVS[:3], ops + [["close_run", "success", 0]], tag="c05 monitors enum"))
+    for _ in range(250 if tier == "quick" else 4000):
+        n = rng.randint(4, 9)
+        out.append(bc.mk(bc.DEVS[:3], [["open_run"]] + [bc._thaw(rng.choice(MON_ALPHABET)) for _ in range(n)]
+                         + [["close_run", "success", 0]], tag="c05 monitors rand"))
+    out += bc.random_cases(rng, 100 if tier == "quick" else 2000, "mixed")
+    for c in out:
+        c["fam"] = "bundler"
+    return out
+
+
+def cases(rng, tier):
+    return dc.cases(rng, tier) + bundler_cases(rng, tier)
+
+
+def impl_batch(all_cases):
+    eng = [i for i, c in enumerate(all_cases) if not is_b(c)]
+    out = [None] * len(all_cases)
+    for i, o in zip(eng, ec.impl_batch([all_cases[i] for i in eng]) if eng else []):
+        out[i] = o
+    # the bundler family is compared with ITS model (Engine/Bundler.v) in a separate Coq pass: the bundler model's names
+    # clash with the engine model's, so the terms cannot share one file of cases with the engine family
+    from harness import core
+    bi = [i for i, c in enumerate(all_cases) if is_b(c)]
+    steps = [bd.run_case(all_cases[i]) for i in bi]
+    terms = [bt.agrees_term(all_cases[i], st) for i, st in zip(bi, steps)]
+    ok, bad, log = core.eval_cases_in_coq("C05b", bt.imports(), terms) if terms else (True, [], "")
+    for k, (i, st) in enumerate(zip(bi, steps)):
+        out[i] = {"steps": st, "model": ("error: " + log[-300:]) if not ok else (k not in set(bad))}
+    return out
+
+
+def describe(case):
+    return case.get("tag", "bundler") if is_b(case) else ec.describe(case)
 
 
 def coq_term(case, obs):
     """dc.coq_term (model == implementation, DocMon verdict == Python mirror) and the refined monitor accepts the trace"""
+    if is_b(case):
+        if obs["model"] is True:
+            return "true"        # Engine/Bundler.v run on the case gave exactly the observed per-op results (see impl_batch)
+        if obs["model"] is False:
+            return "false"
+        raise ValueError("bundler family: Coq evaluation failed: %s" % obs["model"])
     if obs.get("errors") or case.get("oracle_only"):
         return None
     try:
@@ -28,6 +85,8 @@ def coq_term(case, obs):
 
 
 def oracle(case, obs):
+    if is_b(case):
+        return bo.c05_monitors(case, obs["steps"])
     e = dc.driver_error(obs)
     if e:
         return e
@@ -37,6 +96,8 @@ def oracle(case, obs):
 
 
 def finding(case, obs):
+    if is_b(case):
+        return None
     if obs.get("errors"):
         return None
     res = dc.mon(case, obs)
@@ -50,4 +111,6 @@ def finding(case, obs):
 
 
 def nontrivial(case, obs):
+    if is_b(case):
+        return any(op[0] == "mon_event" and o["docs"] for op, o in zip(case["ops"], obs["steps"]))
     return any(o[0] == "doc" and o[1] == "event" for o in obs.get("obs", []))
